@@ -997,7 +997,7 @@ def finish(ctx, cases, lines, impls, outs_by_case):
 
 def run(ctx, nscen=None):
     os.environ["RUST_BACKTRACE"] = "0"
-    nscen = nscen or ctx.pick(110, 900)
+    nscen = nscen or ctx.pick(110, 400)
     nfilters = ctx.pick(5, 8)
     jobs = []
     for sc in corpus_scenarios():
